@@ -96,6 +96,21 @@ def buffering(seed, n, length=14):
         g.assoc("n1")
         if rng.random() < 0.4:
             g.assoc("n2")
+        if i % 5 == 4:
+            # several sessions with equal rule ids but different QoS flows, all buffering, released one after the other:
+            # what is re-injected for one session must not depend on what was re-injected for another before
+            qs = rng.sample([1, 5, 9, 33, 63], 3)
+            ss = [g.est(node=rng.choice(["n1", "n2"]) if len(g.events) > 2 and any(e.get("node") == "n2" for e in g.events) else "n1",
+                        nfar=1, npdr=rng.choice([1, 2]), qfi=q) for q in qs]
+            for s in ss:
+                g.aa(s, 1, 12)
+            for _ in range(rng.randint(3, 8)):
+                g.buf(rng.choice(ss), pdr=rng.randint(1, 2), n=rng.choice([1, 2, 3, 7]), action=rng.choice([4, 12]))
+            rng.shuffle(ss)
+            for s in ss:
+                g.aa(s, 1, 2, newtunnel=rng.random() < 0.3)
+            out.append(g.script("buf-%d-%d" % (seed, i)))
+            continue
         s1 = g.est(nfar=rng.choice([1, 2]), npdr=rng.choice([1, 2, 3]))
         for _ in range(length):
             c = rng.random()
@@ -195,6 +210,14 @@ def periodic(seed, n, length=16):
             else:
                 g.assoc(rng.choice(["n1", "n2"]))
                 g.alive = {k: v for k, v in g.alive.items() if v["node"] != g.events[-1]["node"]}
+        # a further URR joins a period that has already ticked for its session, then the period ticks again
+        for s in sorted(g.alive)[:2]:
+            ps = sorted({p for p in g.alive[s]["urrs"].values() if p > 0})
+            if ps and 9 not in g.alive[s]["urrs"]:
+                g.events.append(tick(ps[0]))
+                g.alive[s]["urrs"][9] = ps[0]
+                g.add(ev("mod", peer="p1", seq=g.nseq(), sref=s, ops=[op("create", "urr", 9, meth=2, perio=True, period=ps[0])]))
+                g.events.append(tick(ps[0]))
         for p in periods:
             g.events.append(tick(p))
         out.append(g.script("per-%d-%d" % (seed, i)))
